@@ -10,6 +10,7 @@ import (
 	"strings"
 	"sync"
 	"sync/atomic"
+	"time"
 
 	"pault.ag/go/debian/verifhook"
 
@@ -266,10 +267,14 @@ func runSchedules(r *mc.Run) {
 	oldProcs := runtime.GOMAXPROCS(1)
 	defer runtime.GOMAXPROCS(oldProcs)
 	// executions of one scenario are sequential (one scheduler), scenarios run in parallel
-	r.Scenario("schedules-preemption-bounded", map[string]interface{}{"thread_programs": len(progs), "preemption_bound": 2, "execution_cap_per_program": schedCap}, len(progs), func(i int, st *mc.Stats) bool {
+	schedStart, schedWall := time.Now(), 30*time.Minute
+	if r.Quick() {
+		schedWall = 4 * time.Minute
+	}
+	r.Scenario("schedules-preemption-bounded", map[string]interface{}{"thread_programs": len(progs), "preemption_bound": 2, "execution_cap_per_program": schedCap, "wall_budget_s": schedWall.Seconds()}, len(progs), func(i int, st *mc.Stats) bool {
 		threads := progs[i]
 		want := sequential(threads)
-		capped := false
+		capped, overBudget := false, false
 		var maxPoints int
 		execs, div := mc.Explore(2, st, func(x *mc.X) {
 			if capped {
@@ -296,14 +301,18 @@ func runSchedules(r *mc.Run) {
 			} else {
 				st.Class("equals-sequential")
 			}
-			if st.Evals > schedCap {
-				capped = true
+			if st.Evals > schedCap || time.Since(schedStart) > schedWall {
+				capped, overBudget = true, true // a budget, not an oracle: the scenario then reports exhaustive=false
 			}
 		})
 		st.States += execs
 		st.Class(fmt.Sprintf("scheduling-points<=%d", bucket(maxPoints)))
 		if st.WantSample() {
 			st.Sample(map[string]interface{}{"threads": threads, "schedules_explored": execs, "scheduling_points_in_longest_execution": maxPoints})
+		}
+		if overBudget {
+			st.Class("budget-reached:exploration-incomplete")
+			return false
 		}
 		if div != "" {
 			// the same choices did not reach the same scheduling points: the library keeps state from one execution to
